@@ -35,14 +35,19 @@ def grid():
               ("cms", cls, dict(b, width=5), "width"),
               ("cms", cls, dict(b, depth=3), "depth"),
               ("cms", cls, dict(b, max_count=10**6), "max_count"),
-              ("cms", cls, dict(b, num_reserved=7), "num_reserved")]
+              ("cms", cls, dict(b, num_reserved=7), "num_reserved"),
+              # large max_count values that differ by 1 (identical after any float rounding / derived quantity)
+              ("cms", cls, dict(b, max_count=2**52), "max_count 2^52"),
+              ("cms", cls, dict(b, max_count=2**52 + 1), "max_count 2^52+1"),
+              ("cms", cls, dict(b, max_count=2**63 + 1024), "max_count 2^63+1024")]
     # default-configured log sketches too (their num_reserved defaults differ: 1023 / 15)
     g += [("cms", "CountMinLog16", dict(width=4, depth=2), "defaults"),
           ("cms", "CountMinLog8", dict(width=4, depth=2), "defaults")]
     g += [("hll", "HyperLogLog", dict(p=7, seed=0), "base"),
           ("hll", "HyperLogLog", dict(p=8, seed=0), "p"),
           ("hll", "HyperLogLog", dict(p=7, seed=1), "seed"),
-          ("hll", "HyperLogLog", dict(p=7, seed=2**63), "seed63")]
+          ("hll", "HyperLogLog", dict(p=7, seed=2**63), "seed63"),
+          ("hll", "HyperLogLog", dict(p=7, seed=2**63 + 1), "seed63+1")]
     g += [("hh", "HeavyHitters", dict(width=4, depth=2, max_key_len=4), "base"),
           ("hh", "HeavyHitters", dict(width=5, depth=2, max_key_len=4), "width"),
           ("hh", "HeavyHitters", dict(width=4, depth=3, max_key_len=4), "depth"),
